@@ -358,6 +358,21 @@ pub fn family(name: &str, n: usize) -> Option<(Vec<(Ty, Entry)>, Vec<u8>)> {
             let (ty, entry, bytes) = header_entries(&h).into_iter().nth(carrier)?;
             Some((vec![(ty, entry)], bytes))
         }
+        // u levels of unprotected nesting, then one hop through a protected bstr, pumped n times:
+        // each bstr hop gives the CBOR parser a fresh recursion budget
+        "depthmix" => {
+            let upl: usize = parts[1].parse().ok()?;
+            let carrier: usize = parts[2].parse().ok()?;
+            let mut h = vec![0xa0u8];
+            for _ in 0..n {
+                h = wrap_edge("sp", &h);
+                for k in 0..upl {
+                    h = wrap_edge(if k % 2 == 0 { "su" } else { "au" }, &h);
+                }
+            }
+            let (ty, entry, bytes) = header_entries(&h).into_iter().nth(carrier)?;
+            Some((vec![(ty, entry)], bytes))
+        }
         "recipients" => {
             // recipient in recipient, n deep
             let mut r = vec![0x83u8, 0x40, 0xa0, 0xf6];
@@ -448,6 +463,11 @@ pub fn family_names(thorough: bool) -> Vec<String> {
         let carriers: Vec<usize> = if w.len() == 1 || thorough { vec![0, 1, 2, 3, 4] } else if w.len() == 2 { vec![0, 1] } else { vec![0] };
         for c in carriers {
             v.push(format!("depth:{}:{}", w.join("-"), c));
+        }
+    }
+    for upl in [10usize, 40, 100, 120] {
+        for c in [0usize, 2] {
+            v.push(format!("depthmix:{}:{}", upl, c));
         }
     }
     for k in ["recipient", "encrypt", "mac"] {
